@@ -1,8 +1,14 @@
 """Shared glue of C01, C02, C04, C13: JSON file case (harness/corelib.FileCase) -> Coq term
 of type Run.Core.fcase, statistics and shrinking."""
-from checklib import cbytes, cbool, clist, cpair, cN, copt
+from checklib import cbool, clist, cpair, cN, copt
 
 BACKENDS = ["cdb", "rdb1", "rdb2"]
+
+
+def cbytes(l):
+    """a byte string as one number literal (base 256 behind a leading 1), decoded by Run.Core.B:
+    Coq parses this far faster than a list of N literals"""
+    return "(B %d)" % int.from_bytes(b"\x01" + bytes(int(x) & 255 for x in l), "big")
 
 
 def labels(packed):
